@@ -105,6 +105,9 @@ func c13Program(id string, strs []string, k0 int) *Prog {
 		for i := 0; i < len(s); i++ {
 			ix := &E{K: "index", Ty: TUint8, X: sv, I: lit(TInt, int64(i))}
 			body = append(body, pr("b", ix, &E{K: "bin", Ty: TUint8, Op: "+", L: ix, R: lit(TUint8, 200)}))
+			// string(b) of a byte is the UTF-8 text of the code point b (two bytes from 0x80 on), not the byte itself
+			sb := &E{K: "conv", Ty: TString, X: ix}
+			body = append(body, pr("sb", lenOf(sb), sb))
 		}
 		for i := 0; i <= len(s); i++ {
 			for j := i; j <= len(s); j++ {
@@ -189,9 +192,10 @@ func c13CharProgram() *Prog {
 		body = append(body, &S{K: "print", Ln: true, Exprs: []*E{{K: "str", Ty: TString, S: "pair"}, lenOf(a), lenOf(b), a, b, cmp("==", a, b)}})
 	}
 	// raw strings that span lines, followed by more tokens on the line they end on
-	for ri, sp := range []string{"`l1\nl2`", "`\n`", "`a\n\nb`", "`x\n`"} {
+	for ri, sp := range []string{"`l1\nl2`", "`\n`", "`a\n\nb`", "`x\n`", "`c1\r\nc2`", "`\r\n`", "`a\rb`"} {
 		rs := fmt.Sprintf("rs%d", ri)
-		s := sp[1 : len(sp)-1]
+		// carriage returns inside a raw string literal are discarded from its value
+		s := strings.ReplaceAll(sp[1:len(sp)-1], "\r", "")
 		mk := func() *E { return &E{K: "str", Ty: TString, S: s, Spell: sp} }
 		body = append(body, &S{K: "print", Ln: true, Exprs: []*E{{K: "str", Ty: TString, S: "ml"}, lenOf(mk()), {K: "bin", Ty: TString, Op: "+", L: mk(), R: &E{K: "str", Ty: TString, S: "c"}}, cmp("==", mk(), &E{K: "str", Ty: TString, S: "x"}), mk(), lit(TInt, 7)}})
 		body = append(body, &S{K: "decl", Names: []string{rs}, Exprs: []*E{{K: "bin", Ty: TString, Op: "+", L: mk(), R: mk()}}},
@@ -202,7 +206,7 @@ func c13CharProgram() *Prog {
 }
 
 func checkC13(c *Ctx) {
-	c.Rule = "strings = every byte string of length <= L over a 12-byte alphabet (ASCII, lead/continuation bytes of 2-, 3-, 4-byte runes, 0xFF), each spelled in one of 5 literal styles, through len, every index, every slice, range, string(rune), []byte round trip, 6 comparisons against 6 strings, concatenation; all character-literal escape forms; seeded random string programs; distinct_nontrivial = strings containing a non-ASCII byte"
+	c.Rule = "strings = every byte string of length <= L over a 12-byte alphabet (ASCII, lead/continuation bytes of 2-, 3-, 4-byte runes, 0xFF), each spelled in one of 5 literal styles, through len, every index (and string(s[i])), every slice, range, string(rune), []byte round trip, 6 comparisons against 6 strings, concatenation; all character-literal escape forms; seeded random string programs; distinct_nontrivial = strings containing a non-ASCII byte"
 	c.Assumptions = []string{"MiniGo.tla/GoString.tla are calibrated against the Go toolchain on a deterministic sample (every 7th program) and on the character-literal program", "literal spellings are checked with strconv.Unquote to denote the intended bytes before use"}
 	L := c.pick(3, 4)
 	strs := c13Strings(L)
